@@ -25,6 +25,10 @@ MUTANTS = [
      'elif not cornered_element[1:].startswith("http"):', 'elif not cornered_element[1:].startswith("http://"):'),
     ("unescaped-quote-parity-flipped", "C07", "_find_next_unescaped_quotes", TTL,
      "quote_pos=pos) % 2 == 0:", "quote_pos=pos) % 2 == 1:"),
+    ("ttl-closure-token-does-not-advance", "C07", "_next_line_token", TTL,
+     "return a_line[start_index], start_index + 1", "return a_line[start_index], start_index"),
+    ("ttl-literal-end-before-its-start", "C07", "_find_next_quoted_literal_ending", TTL,
+     "start_index=start_index+1)", "start_index=start_index)"),
     ("merge-returns-first-member-unmerged", "C04", "merge_group", ASS,
      "        self._merge_content_in_single_statement()\n        return self._dominant_constraint", "        self._merge_content_in_single_statement()\n        return self._iri_constraint"),
 ]
